@@ -10,6 +10,7 @@
     inputMany_spec        the same for any list of chunks (induction over the list) — C01 (i), C02 split independence
     md_finish_with_spec   `standard_padding(rem)`, length writer, `full_buffer`, last compression: both branches give
                           `data ‖ 0x80 ‖ 0^padZeros ‖ lenBytes` in blocks; buffer ends with `buffer_idx = 0` — C01 (ii)
+    md_hash_split         fold over the padded tail after the message's full blocks = `Spec.MD.hash` (step lemma)
     md_hash_spec          new/reset buffer --any chunking--> finish  =  `Spec.MD.hash N rem lenEnc compress iv msg`
     padZeros_spec         `padZeros` is the smallest non-negative solution of FIPS 180-4 §5.1
     len_be64_eq, len_be128_eq, len_le64_split_eq   the code's `(pb << 3)` / `(pb >> 29)` length fields are the
@@ -622,6 +623,18 @@ theorem len_le64_split_eq {len : Nat} (h : len < 2 ^ 61) :
   have e : len % 2 ^ 64 = len := Nat.mod_eq_of_lt (by omega)
   rw [e]
   repeat (first | rfl | (rw [List.cons.injEq]; refine ⟨congrArg UInt8.ofNat (by omega), ?_⟩))
+
+/-- the padding of the tail, folded after the full blocks of the message, is the whole `Spec.MD.hash`
+    (the step lemma state machines use at a finalisation) -/
+theorem md_hash_split {σ : Type} {N : Nat} (hN : 0 < N) (rem : Nat) (compress : σ → Bytes → σ) (iv : σ)
+    (lenEnc : Nat → Bytes) (msg : Bytes) :
+    (fullBlocks N (blockTail N msg ++ [(0x80 : UInt8)] ++ zeros (padZeros N rem (blockTail N msg).length)
+        ++ lenEnc (8 * msg.length))).foldl compress ((fullBlocks N msg).foldl compress iv)
+      = Cx.Spec.MD.hash N rem lenEnc compress iv msg := by
+  unfold Cx.Spec.MD.hash Cx.Spec.MD.pad
+  rw [blockTail_length, padZeros_mod]
+  rw [List.append_assoc msg, List.append_assoc msg, fullBlocks_append hN msg, List.foldl_append]
+  simp [List.append_assoc]
 
 /-! ### end to end: any chunking, then finish = `Spec.MD.hash` -/
 
